@@ -36,7 +36,8 @@ CLAIMS['C16'] = dict(
           'm_size changes, that growth preserves [0,m_size), what a move leaves in source and target) are discharged at every exit; the '
           'doubling loop is handled by widening with inductively verified bounds; every operator<< is shown to write the stream only '
           'through verified members; to_string hands (raw_buffer(), size()) to from_utf8 with the requested mode resp. to from_latin_1; a text '
-          'rendered by snprintf straight into the stream counts only if snprintf reported less than the space given. Induction over operations gives content == concatenation for all histories.'),
+          'rendered by snprintf straight into the stream counts only if snprintf reported less than the space given; no member hands the storage of a '
+          'counted text argument (ST::string, buffer, std::basic_string, string_view) to a parameter that its callee measures as a NUL-terminated string. Induction over operations gives content == concatenation for all histories.'),
     note=('relative to: clang-14 lowering, STIR and its models; sizes < 2^47; the bytes produced by conversions and number formatting '
           'that operator<< inserts are the subject of C01/C03/C12/C13, not of this check'),
     technique='static analysis: path-sensitive abstract interpretation over LLVM IR with loop widening + Houdini invariants; call-graph funnel')
@@ -61,9 +62,9 @@ CLAIMS['C04'] = dict(
     technique='static analysis: effect summaries + IR encapsulation rules + CFG event ordering + compile-fail witnesses')
 CLAIMS['C18'] = dict(
     level='proof',
-    text=('For every library function that may write a string / buffer / string_stream / std::basic_string through `this` or a non-const '
-          'reference (136 target parameters) and every rvalue parameter it may move from, a forward analysis over the function\'s CFG '
-          'shows that no call whose throw set contains unicode_error / codec_error / bad_format / out_of_range can follow the first '
+    text=('For every library function that may write a string / buffer / string_stream / std::basic_string / numeric formatter object through `this` or a non-const '
+          'reference (143 target parameters) and every rvalue parameter it may move from, a forward analysis over the function\'s CFG '
+          'shows that no throw expression of the function itself and no call whose throw set contains unicode_error / codec_error / bad_format / out_of_range can follow the first '
           'write to the target or the consumption of the rvalue. Throw sets and write/move effects come from whole-module summaries.'),
     note=('relative to: clang-14 lowering, effect and throw summaries, CFG paths not pruned for feasibility (conservative); FILE* / '
           'ostream sinks are not targets; leak-freedom on these paths is C19'),
